@@ -63,8 +63,9 @@ Proof.
   intros e x Hx. pose proof (her_q _ _ Hx e) as E. pose proof (her_kids _ _ Hx) as K.
   destruct x; try exact E.
   - (* VS *) cbn [par_of shape]. apply scalar_par_shape.
-  - (* VList *) cbn [kids] in K. cbn [shape]. destruct l as [|y l']; [reflexivity|].
-    cbn [par_of map]. rewrite !erase_sepc. f_equal. exact (map_sim e (y :: l') K).
+  - (* VList *) cbn [kids] in K. destruct l as [|y l']; [destruct k; reflexivity|].
+    destruct k; try exact E;
+    (cbn [shape par_of map]; rewrite !erase_sepc; f_equal; exact (map_sim e (y :: l') K)).
 Qed.
 
 Lemma names_sim : forall e x, Her Q3 x -> erase_names (names_of e x) = erase_names (names_of e (shape x)).
